@@ -62,16 +62,32 @@ theorem keyOriginB_iff (onlyMd : Bool) (md : Metadata ι κ) (m : Msg ι κ) :
       · exact Or.inl h
       · exact Or.inr ⟨⟨h1, h2⟩, h3⟩
 
-/-- The policy the property demands for a configuration: the option's value when it is set,
-    metadata-only when the configuration does not mention it ("with default settings"). -/
-def policy (cfgOnlyMd : Option Bool) : Bool :=
-  match cfgOnlyMd with
+/-- What the writer of a configuration value means, where that is beyond doubt. -/
+def intended : CfgForm → Option Bool
+  | .bool b => some b
+  | .int 0 => some false
+  | .int 1 => some true
+  | .textTrue => some true
+  | .textFalse => some false
+  | .textEmpty => some false
+  | _ => none
+
+/-- The value the property reads: the intended one, else what the code makes of it. -/
+def meaning (norm : CfgForm → Bool) (f : CfgForm) : Bool :=
+  match intended f with
   | some b => b
-  | none => true
+  | none => norm f
+
+/-- The policy the property demands for a configuration: the option's meaning when it is set,
+    metadata-only when the configuration does not mention it ("with default settings"). -/
+def policy (cfgOnlyMd : CfgForm) : Bool :=
+  match cfgOnlyMd with
+  | .absent => true
+  | f => meaning (normCommon true) f
 
 /-- Checker: an accepted message satisfies `KeyOrigin` under the demanded policy; nothing is
     demanded of a refusal (the property is an "only if"). -/
-def specAccept (cfgOnlyMd : Option Bool) (md : Metadata ι κ) (m : Msg ι κ) (accepted : Bool) : Bool :=
+def specAccept (cfgOnlyMd : CfgForm) (md : Metadata ι κ) (m : Msg ι κ) (accepted : Bool) : Bool :=
   !accepted || keyOriginB (policy cfgOnlyMd) md m
 
 /-- The item as the property reads it: the issuer is the one the signed item itself names; only an
@@ -79,14 +95,21 @@ def specAccept (cfgOnlyMd : Option Bool) (md : Metadata ι κ) (m : Msg ι κ) (
 def attributed (arg : Option ι) (m : Msg ι κ) : Msg ι κ :=
   { m with issuer := effIssuer arg m }
 
-/-- Checker for every way a signed item travels.  `after first withArg`: acceptance needs `KeyOrigin`
-    for BOTH items, each under the issuer it names itself. -/
-def specKind (cfgOnlyMd : Option Bool) (md : Metadata ι κ) (kind : Kind ι κ) (m : Msg ι κ) (accepted : Bool) :
-    Bool :=
+/-- Checker for every way a signed item travels.
+    * `want_authn_requests_only_with_valid_cert` meant on (`ovcF`): nothing is demanded — the option's
+      documented meaning is "ignore the signature" (outside the property's default settings);
+    * detached signature while `want_authn_requests_signed` is meant off (`mustF`): the query-string
+      signature is not looked at by design; only an additional enveloped signature counts;
+    * `after first withArg`: acceptance needs `KeyOrigin` for BOTH items, each under the issuer it
+      names itself. -/
+def specKind (cfgOnlyMd ovcF mustF : CfgForm) (md : Metadata ι κ) (kind : Kind ι κ) (m : Msg ι κ)
+    (accepted : Bool) : Bool :=
   match kind with
   | .after first withArg =>
     !accepted || (keyOriginB (policy cfgOnlyMd) md first &&
       keyOriginB (policy cfgOnlyMd) md (attributed (if withArg then first.issuer else none) m))
-  | _ => specAccept cfgOnlyMd md m accepted
+  | .enveloped => meaning normService ovcF || specAccept cfgOnlyMd md m accepted
+  | .detached env =>
+    meaning normService ovcF || (!meaning normService mustF && !env) || specAccept cfgOnlyMd md m accepted
 
 end Keys
